@@ -965,6 +965,18 @@ func (env *SEnv) builtin(name string, args []*SExpr, e *SExpr) *SVal {
 		default:
 			return &SVal{T: vc.bitsStub("OnesCount32", x.T), Go: types.Typ[types.Int]}
 		}
+	case "ptrof":
+		// ptrof(x, "*T"): the pointer held by interface value x, viewed as *T (meaningful when typeis(x, "*T"))
+		need(2)
+		x := env.materialize(env.tr(args[0]), nil)
+		if x.T.S.K != KIface || args[1].K != EStr {
+			sfail("ptrof needs an interface value and a quoted pointer type")
+		}
+		T, err := vc.eng.resolveType(vc.eng.PPkgs[env.pkgPath], args[1].Op)
+		if err != nil {
+			sfail("%v", err)
+		}
+		return &SVal{T: vc.ifVal(x.T), Go: T}
 	case "unboxptr":
 		need(1)
 		x := env.materialize(env.tr(args[0]), nil)
